@@ -73,9 +73,14 @@ func NewToUnicodeFile(csr charcode.CodeSpaceRange, data map[charcode.Code]string
 					copy(last, key)
 					last[len(key)] = info[i-1].x
 
+					// The single-value form is only usable if every text is
+					// what a reader computes from the first one.  (Comparing
+					// neighbours is not enough: incrementing into the
+					// surrogate range yields U+FFFD, from where the
+					// increments continue differently.)
 					needsList := false
-					for j := start; j < i-1; j++ {
-						if data[info[j+1].code] != nextString(data[info[j].code], 1) {
+					for j := start + 1; j < i; j++ {
+						if data[info[j].code] != nextString(data[info[start].code], j-start) {
 							needsList = true
 							break
 						}
